@@ -209,6 +209,9 @@ class Prop:
             sc["openings"] = ctx.new_source(rng.choice(["cold", "hot"]), prefix="p", maxn=4, positive_first=True)
             sc["pool"] = [ctx.new_source("cold", prefix="p", maxn=1, positive_first=True) for _ in range(2)]
         sc["sources"] = ctx.sources
+        off = rng.choice([None, None, None, 37, 123, 411])
+        if off and kind not in ("boundaries", "toggle"):
+            sc["sub2_t"] = 205 + off
         return sc
 
     def build(self, w, sc):
